@@ -15,7 +15,7 @@ def main():
     extra = sys.argv[4:]
     dst = "/verif/seeded/%s-%s" % (prop, name)
     os.makedirs(dst, exist_ok=True)
-    for f in os.listdir(src):
+    for f in ([] if os.path.realpath(src) == os.path.realpath(dst) else os.listdir(src)):
         s = os.path.join(src, f)
         if os.path.isdir(s):
             shutil.copytree(s, os.path.join(dst, f), dirs_exist_ok=True)
@@ -39,6 +39,8 @@ def main():
             rc, out = sh("/verif/baseline.sh")
             meta["suite_passes_with_change_confirmed"] = (rc == 0)
             results = {}
+            for f in os.listdir(dst):  # replays of an earlier evaluation
+                if f.startswith("replay_"): os.remove(os.path.join(dst, f))
             for p in [prop] + extra:
                 t0 = time.time()
                 rc, out = sh("cd /verif && ./check %s" % p, timeout=3000)
